@@ -104,6 +104,7 @@ fn panic_signature(msg: &str, loc: &str) -> String {
 }
 
 pub fn run_a(sc: &ScenarioA, keep_events: bool) -> OutcomeA {
+    super::cli::heartbeat();
     let _ = take_panic();
     MAIN_RESULT.with(|m| *m.borrow_mut() = None);
 
